@@ -1,7 +1,7 @@
 """C05 - bound names and data-dependent predicates see the values parsed earlier."""
 from contracts import bind, lists, spellings
 from pyvc.report import Report
-from .common import run_fragments
+from .common import run_fragments, dependency_layer
 
 
 def run(tier, seed):
@@ -26,4 +26,5 @@ def run(tier, seed):
     rep.assumptions.append('frame clause of the child contract: a child does not change user-visible names that are in scope at its entry '
                            '(G-scope is proved for every class under this hypothesis; it FAILS for Let itself - known finding)')
     rep.assumptions.append('bindings are python locals of the generated function: activations cannot share them (CPython semantics; no global/nonlocal is emitted - checked in C18)')
+    dependency_layer(rep, tier)
     return rep.finish()
